@@ -11,6 +11,9 @@ FUNCS = [SB + m for m in ("skipSpaces", "skipCharsStr", "skipSpacesBack", "skipC
 def run(tier, seed):
     rep = Report("C01", tier, seed, "other")
     deductive(rep, "C01", FUNCS, "contracts.block", select=lambda q, ob, rel: ob.kind in ("SAFE", "DEC", "INV-init", "INV-pres", "PRE", "COVER"))
+    deductive(rep, "C01", ["markdown_it.parser_block.ParserBlock.tokenize"], "contracts.block", select=lambda q, ob, rel: True)
+    deductive(rep, "C01", ["markdown_it.rules_inline.escape.escape", "markdown_it.parser_inline.ParserInline.tokenize", "markdown_it.parser_inline.ParserInline.skipToken"], "contracts.inline",
+              select=lambda q, ob, rel: rel or ob.kind in ("SAFE", "DEC", "INV-init", "INV-pres", "PRE", "COVER", "GUARD"))
     cfgs = ["commonmark", "js-default", "zero", "cm-heading", "cm+table+strike", "cm-maxnest1", "cm+typo", "cm-code", "cm+defs"]
     lines_universe(rep, "vf.checks:no_exception", tier, "MarkdownIt.parse/render/parseInline/renderInline", "no exception, no hang (2 s per document)",
                    cfgs=cfgs if tier == "quick" else ALL_CFGS, exception_is_failure=True, timeout_is_failure=True, rule="distinct top-level token type sequences")
@@ -18,7 +21,7 @@ def run(tier, seed):
                     exception_is_failure=True, timeout_is_failure=True, quick_k=2, thorough_k=3)
     rep.explanation = (
         "Mixed. Deductive: SAFE (no IndexError/ValueError/AssertionError/unbound local at any site) and DEC (every loop terminates) obligations are "
-        "discharged for the StateBlock scanning helpers and the seven leaf block rules under the line-table invariant WF (which the run-time monitors "
+        "discharged for the StateBlock scanning helpers, the seven leaf block rules, ParserBlock.tokenize (progress: the paragraph fallback always matches; rules run only under level < maxNesting on non-empty lines), ParserInline.tokenize/skipToken (position strictly advances; memo invariant cache[p] > p) and the escape rule, under the line-table invariant WF (which the run-time monitors "
         "confirm on every real call). Bounded: a no-exception/no-hang monitor on the four API methods over the wrapped line universe and the inline "
         "universe x 9-12 configurations. Containers, inline rules and core rules are not yet under contract (listed as bounded).")
     rep.trusted_base = STD_TRUST
